@@ -198,7 +198,7 @@ void shapeBounds(uint64_t seed, int variant) {
 }
 
 struct Plan { size_t each; size_t shapes; };
-Plan plan() { return g_cfg.tier ? Plan{60000, 600} : Plan{6000, 60}; }
+Plan plan() { return g_cfg.tier ? Plan{600000, 3000} : Plan{6000, 60}; }
 const size_t PER_CASE = 250;
 
 void run(size_t idx) {
